@@ -126,6 +126,11 @@ elif what == 'imatmul_int':
     global x
     x @= V; return val(x)
   got, exp = outcome(f), py_ctor(N, V)
+  if got[0] == 'exc' and int(x._uint) != A: got = ('a rejected @= changed the target to', int(x._uint))
+elif what in ('ctor_mixed', 'ctor_cls_mixed'):
+  M = N + 1 if N < 1023 else N - 1
+  o = Bits(M, B %% 2**M)
+  got, exp = outcome(lambda: val(Bits(N, o) if what == 'ctor_mixed' else mk_bits(N)(o))), ('exc', 'ValueError')
 elif what == 'imatmul_bits':
   def f():
     global x
@@ -138,6 +143,7 @@ elif what == 'ilshift_int':
     before = int(x._uint); x._flip(); return ('val', (before, int(x._uint)), N)
   e = py_ctor(N, V)
   got, exp = outcome(f), (e if e[0] == 'exc' else ('val', (A, e[1]), N))
+  if got[0] == 'exc' and int(x._uint) != A: got = ('a rejected <<= changed the target to', int(x._uint))
 elif what == 'ilshift_bits':
   def f():
     global x
@@ -170,6 +176,7 @@ def item_misc(it):
   T = z3.BoolVal(True)
   mk = lambda s_: sp.PB._new_valid_bits(n, s_)
   two = False
+  extra = {}
 
   def P(term):  # result is a Bits of width n with payload term
     return _val_pred(term, None, n)
@@ -180,6 +187,8 @@ def item_misc(it):
     spec = [(T, 'val', P(vn))]
   elif what in ('ctor_bits', 'imatmul_bits'):
     spec = [(T, 'val', P(bv))]
+  elif what in ('ctor_mixed', 'ctor_cls_mixed'):      # a Bits value of another width is never accepted, whatever its value
+    spec = [(T, 'exc', 'ValueError')]
   elif what in ('clone', 'deepcopy', 'uint_method', 'dunder_int'):
     spec = [(T, 'val', P(av))]
   elif what == 'invert':
@@ -209,13 +218,27 @@ def item_misc(it):
     if what == 'ctor_cls': return {'r': mk_bits(n)(sv)}
     if what == 'ctor_cls_trunc': return {'r': mk_bits(n)(sv, trunc_int=True)}
     if what == 'ctor_bits': return {'r': Bits(n, b)}
+    if what in ('ctor_mixed', 'ctor_cls_mixed'):
+      m = n + 1 if n < 1023 else n - 1
+      sm, _ = fresh('bm', m) if 'bm' not in extra else extra['bm']; extra['bm'] = (sm, _)
+      o = sp.PB._new_valid_bits(m, sm)
+      return {'r': Bits(n, o) if what == 'ctor_mixed' else mk_bits(n)(o)}
     if what == 'imatmul_int':
-      y = x; x @= sv; assert x is y; return {'r': x}
+      y = x
+      try: x @= sv
+      except ValueError:
+        # an assignment that is rejected must leave the target as it was
+        if x._uint is not sa and bool(lift(x._uint) != sa): raise AssertionError('a rejected @= modified its target')
+        raise
+      assert x is y; return {'r': x}
     if what == 'imatmul_bits':
       y = x; x @= b; assert x is y and x is not b; return {'r': x}
     if what in ('ilshift_int', 'ilshift_bits'):
       y = x
-      x <<= (sv if what == 'ilshift_int' else b)
+      try: x <<= (sv if what == 'ilshift_int' else b)
+      except ValueError:
+        if x._uint is not sa and bool(lift(x._uint) != sa): raise AssertionError('a rejected <<= modified its target')
+        raise
       assert x is y
       before = x._uint
       x._flip()
@@ -276,7 +299,7 @@ def dispatch(it):
   return {'bin': item_bin, 'misc': item_misc, 'tables': item_tables, 'selftest': item_selftest}[it['kind']](it)
 
 
-MISC = ['ctor', 'ctor_trunc', 'ctor_cls', 'ctor_cls_trunc', 'ctor_bits', 'imatmul_int', 'imatmul_bits', 'ilshift_int',
+MISC = ['ctor', 'ctor_trunc', 'ctor_cls', 'ctor_cls_trunc', 'ctor_bits', 'ctor_mixed', 'ctor_cls_mixed', 'imatmul_int', 'imatmul_bits', 'ilshift_int',
         'ilshift_bits', 'clone', 'deepcopy', 'invert', 'int_method', 'uint_method', 'dunder_int', 'bool']
 
 
